@@ -55,14 +55,14 @@ Theorem Lap_L_symmetric :
   forall (F : Type) (Fo : FieldOps F) (Ff : IsField F) (heat : nat -> nat -> F)
          (n : nat) (nbrs : list (list nat)) (k : nat),
     msym n (matL heat k nbrs n).
-Proof. intros. apply matL_sym_gen. Qed.
+Proof. exact @matL_sym_gen. Qed.
 Print Assumptions Lap_L_symmetric.
 
 Theorem Lap_L_ones_zero :
   forall (F : Type) (Fo : FieldOps F) (Ff : IsField F) (heat : nat -> nat -> F)
          (n : nat) (nbrs : list (list nat)) (k : nat) (i : nat),
     i < n -> sumn n (fun j => matL heat k nbrs n i j) = 0%F.
-Proof. intros. apply matL_row_sum_gen. assumption. Qed.
+Proof. exact @matL_row_sum_gen. Qed.
 Print Assumptions Lap_L_ones_zero.
 
 (* 3. selection: with the selector table generated from the current source and skip(SmallestEigenvalues)
@@ -142,7 +142,7 @@ Theorem Dm_exec_model_ok :
          (dist : nat -> nat -> F) (width : F) (expo sqrto : F -> F) (n : nat),
     compute_diffusion_matrix dist width expo sqrto n = mtab n n (dm_matrix dist width expo sqrto n) /\
     dm_sqrt_args dist width expo n = vtab n (colsum n (dm_k1 dist width expo n)).
-Proof. intros. split; [apply compute_diffusion_matrix_ok|apply dm_sqrt_args_ok]. Qed.
+Proof. exact dm_exec_model_ok_both. Qed.
 Print Assumptions Dm_exec_model_ok.
 
 (* 7. the two normalisation passes: M = S^-1 (P^-1 K P^-1) S^-1 with K the (symmetric) kernel written by the
@@ -157,11 +157,7 @@ Theorem Dm_diffusion_matrix :
      (forall i, i < n -> s i <> 0%F) ->
      (forall j, j < n -> s j = sqrto (dm_Q K n j)) /\
      meq n n (dm_matrix dist width expo sqrto n) (dm_sym K n s)).
-Proof.
-  intros F Fo Ff dist width expo sqrto n K. split.
-  - apply dm_kernel_sym.
-  - apply dm_matrix_is_spec.
-Qed.
+Proof. exact dm_diffusion_matrix_full. Qed.
 Print Assumptions Dm_diffusion_matrix.
 
 Definition exd_dist : nat -> nat -> Qc := mof [[qz 0; qz 1]; [qz 7; qz 0]].
@@ -191,12 +187,7 @@ Theorem Dm_operator_facts :
     (forall i, i < n -> rowsum n (dm_markov K n) i = 1%F) /\
     (forall l psi, eigvec n (dm_sym K n s) l psi ->
                    eigvec n (dm_markov K n) l (fun i => (psi i / s i)%F)).
-Proof.
-  intros F Fo Ff K n s H2 H0. split; [|split].
-  - apply dm_top_eigvec; assumption.
-  - intros i Hi. apply (dm_markov_stochastic K n s H2 H0 i Hi).
-  - intros l psi. apply dm_conjugate; assumption.
-Qed.
+Proof. exact dm_operator_facts. Qed.
 Print Assumptions Dm_operator_facts.
 
 Definition exo_K : mat Qc := mof [[qz 3; qz 1]; [qz 1; qz 3]].
@@ -275,8 +266,19 @@ Proof.
 Qed.
 
 (* 12. compute_laplacian never leaves a container on well-formed neighbour lists: at least n lists, each of
-       the first n with at least k = |neighbors[0]| entries, the first k entries of each < n.  (Theorem 1 shows
-       that LOk conversely implies the id condition, so it is also necessary.) *)
+       the first n with at least k = |neighbors[0]| entries, the first k entries of each < n — and ONLY then
+       (Lap_laplacian_ok_iff: the model returns OOB exactly when this precondition fails). *)
+Theorem Lap_laplacian_ok_iff :
+  forall (F : Type) (Fo : FieldOps F) (Ff : IsField F) (dist : nat -> nat -> F) (width : F) (expo : F -> F)
+         (n : nat) (nbrs : list (list nat)) (k : nat),
+    k = length (hd [] nbrs) -> nbrs <> [] ->
+    ((exists ts D, compute_laplacian dist width expo n nbrs = LOk (ts, D)) <->
+     (n <= length nbrs /\
+      (forall i, i < n -> k <= length (nth i nbrs [])) /\
+      (forall i q, i < n -> q < k -> nb_at nbrs i q < n))).
+Proof. exact @compute_laplacian_ok_iff. Qed.
+Print Assumptions Lap_laplacian_ok_iff.
+
 Theorem Lap_laplacian_total :
   forall (F : Type) (Fo : FieldOps F) (dist : nat -> nat -> F) (width : F) (expo : F -> F)
          (n : nat) (nbrs : list (list nat)) (k : nat),
@@ -426,10 +428,16 @@ Print Assumptions Lap_pencil_spectrum_Qc_partial.
 
 Example Lap_pencil_spectrum_nonvacuous :
   meq 4 4 (mmul 4 c4_V (mmul 4 (mtrans c4_V) c4_D)) mI /\
-  msym 4 (matL c4_heat 2 c4_nbrs 4).
+  msym 4 (matL c4_heat 2 c4_nbrs 4) /\
+  (* hypotheses of theorem 16 for mu = 3 (not an eigenvalue of the 4-cycle pencil) and the zero vector *)
+  gen_eigvec 4 (matL c4_heat 2 c4_nbrs 4) c4_D (qz 3) (fun _ => qz 0) /\
+  (forall c, c < 4 -> c4_lam c <> qz 3).
 Proof.
   split; [apply meq_by_compute; vm_compute; reflexivity|].
-  apply read_msym_by_compute. vm_compute. reflexivity.
+  split; [apply read_msym_by_compute; vm_compute; reflexivity|].
+  split.
+  { apply veq_by_compute. vm_compute. reflexivity. }
+  intros c Hc H. destruct c as [|[|[|[|c]]]]; try lia; vm_compute in H; discriminate.
 Qed.
 
 (* 19. Diffusion Map, the ORDER part at Qc.  For a positive symmetric kernel the diffusion operator T is a positive
@@ -445,11 +453,7 @@ Theorem Dm_markov_spectrum_Qc :
     (forall phi : vec Qc, 0 < n -> eigvec n T 1%Qc phi -> forall i, i < n -> phi i = phi 0) /\
     (forall (l : Qc) (phi : vec Qc), eigvec n T l phi -> (exists i, i < n /\ phi i <> 0%Qc) ->
        (- (1) <= l)%Qc /\ (l <= 1)%Qc).
-Proof.
-  intros T n Tpos Trow. split.
-  - intros phi. apply markov_eig1_const; assumption.
-  - intros l phi. apply markov_eig_bound; assumption.
-Qed.
+Proof. exact markov_spectrum. Qed.
 Print Assumptions Dm_markov_spectrum_Qc.
 
 Theorem Dm_top_is_trivial_Qc_partial :
